@@ -8,12 +8,15 @@ import (
 	"math/rand"
 	"os"
 	"sort"
+	"strings"
 	"sync"
+	"sync/atomic"
 	"time"
 
 	"github.com/golang/snappy"
 	pbredis "github.com/samaritan-proxy/samaritan/pb/config/protocol/redis"
 	predis "github.com/samaritan-proxy/samaritan/proc/redis"
+	"github.com/samaritan-proxy/samaritan/utils/verifhook"
 
 	"verifharness/internal/cli"
 	"verifharness/internal/resp"
@@ -50,6 +53,8 @@ type result struct {
 	Cmds    []string `json:"cmds"`
 	Bad     []bad    `json:"bad"`
 	Err     string   `json:"err,omitempty"`
+	Infra   []string `json:"infra,omitempty"` // requests the processor could not deliver (connect failure, ...): not judged
+	Log     []string `json:"log,omitempty"`   // on a violation: what every node received / answered for this history, in global order
 }
 
 // compresses reports the length of the stored form the real value compression produces for v.
@@ -185,6 +190,88 @@ type env struct {
 	c, bg *sut.Client
 	used  int
 	sick  bool
+	t0    time.Time
+	trace []string // ring of node and driver events (appended under the cluster lock)
+}
+
+const traceCap = 6000
+
+// note appends a driver event to the trace.
+func (e *env) note(format string, a ...interface{}) {
+	e.cl.Lock()
+	e.addTrace("driver " + fmt.Sprintf(format, a...))
+	e.cl.Unlock()
+}
+
+func (e *env) addTrace(s string) {
+	if len(e.trace) >= traceCap {
+		e.trace = append(e.trace[:0], e.trace[traceCap/2:]...)
+	}
+	e.trace = append(e.trace, fmt.Sprintf("%s %s", stamp(), s))
+}
+
+func stamp() string { return fmt.Sprintf("%010dus", time.Now().UnixNano()/1000%10000000000) }
+
+// hook points of the processor (all environments of the process share them): what happens to every backend request
+var (
+	hookMu    sync.Mutex
+	hookTrace []string
+)
+
+func installHookTrace() {
+	verifhook.Set(func(point string, a, b interface{}) {
+		if !strings.HasPrefix(point, "client.") && point != "simpleRequest.SetResponse" {
+			return
+		}
+		var line string
+		if point == "simpleRequest.SetResponse" {
+			line = fmt.Sprintf("hook   %s req=%v resp=%.80q", point, predis.VerifDescribe(a), strings.Join(predis.VerifDescribe(b).Args, " "))
+		} else if b != nil {
+			line = fmt.Sprintf("hook   %s client=%s req=%v", point, predis.VerifDescribe(a).Addr, predis.VerifDescribe(b))
+		} else {
+			return
+		}
+		hookMu.Lock()
+		if len(hookTrace) >= 40000 {
+			hookTrace = append(hookTrace[:0], hookTrace[20000:]...)
+		}
+		hookTrace = append(hookTrace, stamp()+" "+line)
+		hookMu.Unlock()
+	})
+}
+
+func hookTraceOf(marker string) []string {
+	hookMu.Lock()
+	defer hookMu.Unlock()
+	var out []string
+	for _, l := range hookTrace {
+		if strings.Contains(l, marker) {
+			out = append(out, l)
+		}
+	}
+	return out
+}
+
+// traceOf returns the events from the first one that names the marker (keys of one history carry its id) onwards:
+// everything every node received and answered meanwhile, in global order.
+func (e *env) traceOf(marker string) []string {
+	e.cl.Lock()
+	defer e.cl.Unlock()
+	first := -1
+	for i, l := range e.trace {
+		if strings.Contains(l, marker) {
+			first = i
+			break
+		}
+	}
+	if first < 0 {
+		return nil
+	}
+	out := append([]string{}, e.trace[first:]...)
+	if len(out) > 600 {
+		out = out[:600]
+	}
+	return out
 }
 
 func newEnv(cfg string, thr int) (*env, error) {
@@ -192,26 +279,161 @@ func newEnv(cfg string, thr int) (*env, error) {
 	if err != nil {
 		return nil, err
 	}
-	e := &env{cl: cl}
-	e.px, err = sut.StartRedis(sut.RedisOpts{Compression: compression(cfg, thr)}, cl.Addrs())
+	e := &env{cl: cl, t0: time.Now()}
+	cl.Trace = func(ev simredis.Event) { // called under the cluster lock
+		if ev.Rec == nil || (ev.Kind != "recv" && ev.Kind != "reply") {
+			return
+		}
+		var a []string
+		for i, x := range ev.Rec.Args {
+			if i >= 3 {
+				break
+			}
+			a = append(a, string(clip(x)))
+		}
+		rep := ev.Rec.Reply.String()
+		if ev.Rec.RawRepl != nil {
+			rep = string(ev.Rec.RawRepl)
+		}
+		if len(rep) > 60 {
+			rep = rep[:60]
+		}
+		e.addTrace(fmt.Sprintf("node%d conn%d seq%d %-5s %s served=%v -> %q", ev.Node, ev.Conn, ev.Rec.Seq, ev.Kind, strings.Join(a, " "), ev.Rec.Served, rep))
+	}
+	var conns []*sut.Client
+	e.px, conns, err = startProxy(cl, compression(cfg, thr), 2)
 	if err != nil {
 		cl.Close()
-		return nil, fmt.Errorf("start: %v", err)
-	}
-	if !sut.WaitRefresh(e.px.Name, 3*time.Second) {
-		e.close()
-		return nil, fmt.Errorf("slot table not loaded")
-	}
-	if e.c, err = sut.Dial(e.px.Addr); err != nil {
-		e.close()
 		return nil, err
 	}
-	if e.bg, err = sut.Dial(e.px.Addr); err != nil {
-		e.close()
-		return nil, err
-	}
+	e.c, e.bg = conns[0], conns[1]
 	return e, nil
 }
+
+// startProxy starts a processor in front of cl and opens n client connections that are proven to end at it.
+// The processor's port is chosen by closing a listener and binding again (sut.FreePort): when many harness processes
+// run side by side another process can take the port in between, the processor keeps retrying its bind, and a client
+// that dials the address talks to a stranger (another copy's processor or node). Every connection therefore sends one
+// probe per node which must show up in that node's own log; otherwise everything is torn down and started again.
+// The probes also make the processor connect to every node before the test starts: it connects on first use, on a
+// loaded machine that can take long, and a request that meets a failed connect is answered with the dial error (a child
+// of MSET even silently, the parent says +OK).
+func startProxy(cl *simredis.Cluster, comp *pbredis.Compression, n int) (*sut.Redis, []*sut.Client, error) {
+	var last error
+	for attempt := 0; attempt < 6; attempt++ {
+		px, err := sut.StartRedis(sut.RedisOpts{Compression: comp, ConnectTO: connectTO}, cl.Addrs())
+		if err != nil {
+			last = fmt.Errorf("start: %v", err)
+			continue
+		}
+		var conns []*sut.Client
+		fail := func(err error) {
+			last = err
+			for _, c := range conns {
+				c.Close()
+			}
+			sut.StopWithin(px.P, 5*time.Second)
+		}
+		if !sut.WaitRefresh(px.Name, 30*time.Second) {
+			fail(fmt.Errorf("slot table not loaded"))
+			continue
+		}
+		ok := true
+		for ci := 0; ci < n && ok; ci++ {
+			c, err := sut.Dial(px.Addr)
+			if err != nil {
+				fail(err)
+				ok = false
+				break
+			}
+			conns = append(conns, c)
+			for idx, node := range cl.Nodes {
+				key := cl.KeyFor(idx, fmt.Sprintf("probe:%s:%d:%d:", px.Name, attempt, ci))
+				v, err := c.Do(replyTO, "GET", key)
+				seen := false
+				for _, r := range node.Records() {
+					if len(r.Args) == 2 && string(r.Args[1]) == key {
+						seen = true
+					}
+				}
+				if err != nil || v.IsErr() || !seen {
+					fail(fmt.Errorf("connection %d to %s does not end at the processor under test (probe of node %d: %v %v, seen by the node: %v)", ci, px.Addr, idx, v, err, seen))
+					ok = false
+					break
+				}
+			}
+		}
+		if ok {
+			return px, conns, nil
+		}
+	}
+	return nil, nil, last
+}
+
+// dialVerified opens a client connection to the processor and proves that it ends there: a probe sent over it must show
+// up in the log of one of the cluster's own nodes.
+func dialVerified(px *sut.Redis, cl *simredis.Cluster, tag string) (*sut.Client, error) {
+	var last error
+	for try := 0; try < 20; try++ {
+		c, err := sut.Dial(px.Addr)
+		if err != nil {
+			last = err
+			time.Sleep(5 * time.Millisecond)
+			continue
+		}
+		key := fmt.Sprintf("probe:%s:%s:%d", px.Name, tag, try)
+		v, err := c.Do(replyTO, "GET", key)
+		seen := false
+		for _, n := range cl.Nodes {
+			for _, r := range n.Records() {
+				if len(r.Args) == 2 && string(r.Args[1]) == key {
+					seen = true
+				}
+			}
+		}
+		if err == nil && !v.IsErr() && seen {
+			return c, nil
+		}
+		last = fmt.Errorf("connection to %s does not end at the processor under test (probe: %v %v)", px.Addr, v, err)
+		strangers.Add(1)
+		c.Close()
+		time.Sleep(5 * time.Millisecond)
+	}
+	return nil, last
+}
+
+// strangers counts connections that ended somewhere else (another process on the same port).
+var strangers atomic.Int64
+
+// connectTO is the processor's connect timeout towards the nodes: generous, the machine may be heavily loaded and a
+// failed connect is a fault of the environment, not of the compression.
+const connectTO = 20 * time.Second
+
+// replyTO is the deadline for a reply. A reply that does not come is not a verdict about compression: the history is
+// reported as not replayed (and the check turns inconclusive when that happens often).
+const replyTO = connectTO + 5*time.Second
+
+// infraErr recognises error replies the processor produces when it cannot talk to a node (not a verdict about compression).
+func infraErr(v resp.Value) bool {
+	if !v.IsErr() {
+		for _, x := range v.Arr {
+			if infraErr(x) {
+				return true
+			}
+		}
+		return false
+	}
+	t := string(v.Str)
+	for _, m := range []string{"dial tcp", "i/o timeout", "exited", "connection refused", "connection reset", "broken pipe", "EOF", "closed network connection"} {
+		if strings.Contains(t, m) {
+			return true
+		}
+	}
+	return false
+}
+
+// failures is the processor's count of backend requests that ended with an error reply (connect failures included).
+func (e *env) failures() int64 { return sut.ServiceStats(e.px.Name)["upstream.rq_failure_total"] }
 
 func (e *env) close() {
 	if e.c != nil {
@@ -231,8 +453,32 @@ func (e *env) setConfig(c string, thr int) error {
 	return e.px.P.OnSvcConfigUpdate(cfg)
 }
 
+// ungate lets a node answer again. simredis writes released replies outside its lock: when several held replies are
+// flushed at once, the reply to a command that arrives on the same connection meanwhile (the processor asks for CLUSTER
+// NODES as soon as it sees the first MOVED) can be written between them - the node would answer out of order on one
+// connection, which no Redis does, and the processor would pair the replies with the wrong requests. So the held replies
+// are released one at a time while the gate stays on (later replies queue up behind), and the gate is switched off only
+// when nothing is held.
+func ungate(n *simredis.Node) {
+	for i := 0; i < 100000; i++ {
+		if n.Pending() == 0 {
+			time.Sleep(300 * time.Microsecond)
+			if n.Pending() == 0 {
+				break
+			}
+		}
+		n.Release(1)
+	}
+	n.SetGate(false)
+}
+
 // hops arranges r redirections for the next request naming key and returns the node that will serve it.
 func (e *env) hops(key string, r int) int {
+	// scripted replies left over from an earlier step (a redirection chain the request did not walk to its end because the
+	// processor's table was ahead of it) must not fire now
+	for _, n := range e.cl.Nodes {
+		n.ClearScripts()
+	}
 	slot := simredis.Slot([]byte(key))
 	cur := e.cl.Owner(slot)
 	if r == 0 {
@@ -262,7 +508,8 @@ func (e *env) find(key string) (*simredis.Entry, bool) {
 	return nil, false
 }
 
-// traffic builds a pipeline of n SET/GET pairs with compressible values on keys that node `avoid` does not own.
+// traffic builds a pipeline of n SETs with compressible values on keys that node `avoid` does not own; they are read back
+// afterwards, one by one (a GET pipelined behind its SET may legitimately overtake it when the SET is redirected).
 type trafficItem struct {
 	key string
 	val []byte
@@ -280,7 +527,6 @@ func (e *env) traffic(id, seq, n, avoid int, rnd *rand.Rand) ([]byte, []trafficI
 		val := bytes.Repeat([]byte{byte('A' + rnd.Intn(26)), byte('0' + rnd.Intn(10))}, 300+rnd.Intn(3000))
 		items = append(items, trafficItem{key, val})
 		raw = append(raw, resp.Bytes(resp.CmdB([]byte("SET"), []byte(key), val))...)
-		raw = append(raw, resp.Bytes(resp.CmdB([]byte("GET"), []byte(key)))...)
 	}
 	return raw, items
 }
@@ -357,7 +603,11 @@ func (p *replayer) write(i int, st step, variant int) *wrote {
 		args = wc.args(w.key, vals[0])
 		if wc.name == "setnx" || wc.name == "HSETNX" {
 			// make sure the conditional write takes effect
-			c.DoB(3*time.Second, []byte("del"), []byte(w.key))
+			if _, err := c.DoB(replyTO, []byte("del"), []byte(w.key)); err != nil {
+				p.netTrouble()
+				p.res.Err = fmt.Sprintf("del %s: no reply: %v", w.key, err)
+				return nil
+			}
 		}
 	} else {
 		name = multiCmds[variant%len(multiCmds)]
@@ -390,7 +640,9 @@ func (p *replayer) write(i int, st step, variant int) *wrote {
 	p.res.Cmds = append(p.res.Cmds, name)
 	req := resp.Bytes(resp.CmdB(args...))
 	from := e.cl.Owner(simredis.Slot([]byte(w.key)))
-	e.hops(w.key, st.R)
+	failed := e.failures()
+	final := e.hops(w.key, st.R)
+	e.note("history :%d: step %d %s key %s slot %d owner node%d redirections %d -> node%d busy=%v", p.id, i, name, w.key, simredis.Slot([]byte(w.key)), from, st.R, final, st.Busy)
 	var v resp.Value
 	var err error
 	switch {
@@ -401,6 +653,7 @@ func (p *replayer) write(i int, st step, variant int) *wrote {
 		p.seq++
 		raw, items := e.traffic(p.id, p.seq, 3, from, rnd)
 		node.SetGate(true)
+		e.note("history :%d: gate on node%d", p.id, from)
 		c.Send(req)
 		dl := time.Now().Add(2 * time.Second)
 		for e.cl.Owner(slot) == from && time.Now().Before(dl) {
@@ -409,28 +662,42 @@ func (p *replayer) write(i int, st step, variant int) *wrote {
 		before := e.dataCommands()
 		e.bg.Send(raw)
 		dl = time.Now().Add(500 * time.Millisecond)
-		for e.dataCommands() < before+2*len(items) && time.Now().Before(dl) {
+		for e.dataCommands() < before+len(items) && time.Now().Before(dl) {
 			time.Sleep(200 * time.Microsecond)
 		}
-		node.SetGate(false)
-		v, err = c.Recv(5 * time.Second)
+		e.note("history :%d: gate off node%d (held %d)", p.id, from, node.Pending())
+		ungate(node)
+		v, err = c.Recv(replyTO)
+		e.note("history :%d: reply %v %v", p.id, v, err)
 		p.recvTraffic(i, items)
 	case st.Busy:
 		p.seq++
 		raw, items := e.traffic(p.id, p.seq, 3, -1, rnd)
 		e.bg.Send(raw)
 		c.Send(req)
-		v, err = c.Recv(5 * time.Second)
+		v, err = c.Recv(replyTO)
 		p.recvTraffic(i, items)
 	default:
 		c.Send(req)
-		v, err = c.Recv(5 * time.Second)
+		v, err = c.Recv(replyTO)
 	}
 	if err != nil {
 		p.netTrouble()
+		p.res.Err = fmt.Sprintf("%s %s: no reply: %v", name, w.key, err)
+		return nil
 	}
-	if err != nil || v.IsErr() {
+	if infraErr(v) {
+		p.res.Infra = append(p.res.Infra, fmt.Sprintf("%s %s: %v", name, w.key, v))
+		return nil
+	}
+	if v.IsErr() {
 		p.addBad(i, "write-failed/"+name, fmt.Sprintf("%s %s: %v %v", name, w.key, v, err))
+		return nil
+	}
+	if now := e.failures(); now != failed {
+		// a backend request ended with an error reply although the client got %v: MSET answers +OK whatever its
+		// children were answered. Whatever made the child fail (a connect failure under load) is not the compression.
+		p.res.Infra = append(p.res.Infra, fmt.Sprintf("%s %s answered %v although %d backend request(s) of the processor failed meanwhile", name, w.key, v, now-failed))
 		return nil
 	}
 	// what reached the backend
@@ -471,17 +738,34 @@ func (p *replayer) write(i int, st step, variant int) *wrote {
 }
 
 func (p *replayer) recvTraffic(i int, items []trafficItem) {
-	for _, it := range items {
-		v1, err1 := p.e.bg.Recv(5 * time.Second)
-		v2, err2 := p.e.bg.Recv(5 * time.Second)
-		if err1 != nil || err2 != nil {
+	sets := make([]resp.Value, len(items))
+	for j := range items {
+		v, err := p.e.bg.Recv(replyTO)
+		if err != nil {
 			p.netTrouble()
-			p.addBad(i, "read-failed", fmt.Sprintf("background SET/GET of %s: %v %v", it.key, err1, err2))
+			p.res.Err = fmt.Sprintf("background SET of %s: %v", items[j].key, err)
 			return
 		}
+		sets[j] = v
+	}
+	for j, it := range items {
+		if infraErr(sets[j]) {
+			p.res.Infra = append(p.res.Infra, fmt.Sprintf("background SET of %s: %v", it.key, sets[j]))
+			continue
+		}
+		v, err := p.e.bg.Do(replyTO, "GET", it.key)
+		if err != nil {
+			p.netTrouble()
+			p.res.Err = fmt.Sprintf("background GET of %s: %v", it.key, err)
+			return
+		}
+		if infraErr(v) {
+			p.res.Infra = append(p.res.Infra, fmt.Sprintf("background GET of %s: %v", it.key, v))
+			continue
+		}
 		p.res.Traffic++
-		if v1.IsErr() || v2.IsErr() || !bytes.Equal(v2.Str, it.val) {
-			p.addBad(i, "read-back/background-traffic", fmt.Sprintf("background SET/GET of %s: SET -> %v, GET -> %d bytes (%q...), wrote %d bytes (%q...)", it.key, v1, len(v2.Str), clip(v2.Str), len(it.val), clip(it.val)))
+		if sets[j].IsErr() || v.IsErr() || !bytes.Equal(v.Str, it.val) {
+			p.addBad(i, "read-back/background-traffic", fmt.Sprintf("background SET/GET of %s: SET -> %v, GET -> %d bytes (%q...), wrote %d bytes (%q...)", it.key, sets[j], len(v.Str), clip(v.Str), len(it.val), clip(it.val)))
 		}
 		if ent, ok := p.e.find(it.key); ok {
 			if ok, why := storedFormOK(ent.Str, it.val); !ok {
@@ -536,8 +820,14 @@ func (p *replayer) read(i int, st step, w *wrote, variant int, curCfg string) {
 	fail := func() bool {
 		if err != nil {
 			p.netTrouble()
+			p.res.Err = fmt.Sprintf("%s of %s: no reply: %v", name, w.key, err)
+			return true
 		}
-		if err != nil || v.IsErr() {
+		if infraErr(v) {
+			p.res.Infra = append(p.res.Infra, fmt.Sprintf("%s of %s: %v", name, w.key, v))
+			return true
+		}
+		if v.IsErr() {
 			p.addBad(i, "read-failed", fmt.Sprintf("%s of %s: %v %v", name, w.key, v, err))
 			return true
 		}
@@ -548,10 +838,10 @@ func (p *replayer) read(i int, st step, w *wrote, variant int, curCfg string) {
 		for j, k := range w.keys {
 			if variant%2 == 1 && j == 0 {
 				name = "getset"
-				v, err = c.DoB(5*time.Second, []byte("getset"), []byte(k), w.origs[j])
+				v, err = c.DoB(replyTO, []byte("getset"), []byte(k), w.origs[j])
 			} else {
 				name = "GET"
-				v, err = c.Do(5*time.Second, "GET", k)
+				v, err = c.Do(replyTO, "GET", k)
 			}
 			if fail() {
 				return
@@ -561,7 +851,7 @@ func (p *replayer) read(i int, st step, w *wrote, variant int, curCfg string) {
 	case !w.hash:
 		depth = 1 // no command answers string values in nested arrays
 		name = "mget"
-		v, err = c.Do(5*time.Second, append(append([]string{"mget"}, w.keys...), w.key+"-absent")...)
+		v, err = c.Do(replyTO, append(append([]string{"mget"}, w.keys...), w.key+"-absent")...)
 		if fail() {
 			return
 		}
@@ -573,7 +863,7 @@ func (p *replayer) read(i int, st step, w *wrote, variant int, curCfg string) {
 	case depth == 0:
 		name = "HGET"
 		for j, f := range w.fields {
-			v, err = c.Do(5*time.Second, "HGET", w.key, f)
+			v, err = c.Do(replyTO, "HGET", w.key, f)
 			if fail() {
 				return
 			}
@@ -583,7 +873,7 @@ func (p *replayer) read(i int, st step, w *wrote, variant int, curCfg string) {
 		switch variant % 3 {
 		case 0:
 			name = "hmget"
-			v, err = c.Do(5*time.Second, append([]string{"hmget", w.key}, w.fields...)...)
+			v, err = c.Do(replyTO, append([]string{"hmget", w.key}, w.fields...)...)
 			if fail() {
 				return
 			}
@@ -594,7 +884,7 @@ func (p *replayer) read(i int, st step, w *wrote, variant int, curCfg string) {
 			}
 		case 1:
 			name = "HGETALL"
-			v, err = c.Do(5*time.Second, "HGETALL", w.key)
+			v, err = c.Do(replyTO, "HGETALL", w.key)
 			if fail() {
 				return
 			}
@@ -604,7 +894,7 @@ func (p *replayer) read(i int, st step, w *wrote, variant int, curCfg string) {
 			}
 		default:
 			name = "hvals"
-			v, err = c.Do(5*time.Second, "hvals", w.key)
+			v, err = c.Do(replyTO, "hvals", w.key)
 			if fail() {
 				return
 			}
@@ -626,7 +916,7 @@ func (p *replayer) read(i int, st step, w *wrote, variant int, curCfg string) {
 			p.res.Err = "hash " + w.key + " not found on any node"
 			return
 		}
-		v, err = c.Do(5*time.Second, "HSCAN", w.key, "0", "COUNT", "100")
+		v, err = c.Do(replyTO, "HSCAN", w.key, "0", "COUNT", "100")
 		if fail() {
 			return
 		}
@@ -710,6 +1000,10 @@ func replayOne(e *env, id int, steps []step, rnd *rand.Rand, thr int, fresh bool
 	if e.sick && res.Err == "" && len(res.Bad) == 0 {
 		res.Err = "connection out of step"
 	}
+	if len(res.Bad) > 0 {
+		res.Log = append(e.traceOf(fmt.Sprintf(":%d:", id)), hookTraceOf(fmt.Sprintf(":%d:", id))...)
+		sort.Strings(res.Log)
+	}
 	return
 }
 
@@ -736,6 +1030,7 @@ func replay(args []string) error {
 		return err
 	}
 	sut.FastRefresh()
+	installHookTrace()
 	var hists [][]step
 	if err := cli.ReadNDJSON(*in, func(line []byte) error {
 		var steps []step
